@@ -4,4 +4,5 @@ Require Extraction.
 Require ExtrOcamlBasic.
 From Pnc Require Import Gen_ncx Convert.
 Extraction Language OCaml.
-Extraction "c09_model.ml" api_model api_spec leaf_model leaf_spec model1 spec1 ncx_unrecognised.
+Extraction "c09_model.ml" api_model api_spec leaf_model leaf_spec model1 spec1 ncx_unrecognised
+           nb_model nb_spec varn_model varn_spec mput_model mput_spec.
